@@ -522,11 +522,16 @@ class Tape:
             if n.opaque:
                 info["opaque"] = True
                 continue
-            contribs = self._vjp(n, cot[i])
+            with np.errstate(all="ignore"):
+                contribs = self._vjp(n, cot[i])
             for pi, c in zip(n.parents, contribs):
                 if c is None or nodes[pi].const:
                     continue
                 c = np.asarray(c, dtype=np.float64)
+                if c.size and not np.all(np.isfinite(c)):
+                    # a derivative that does not exist as a finite number (cbrt at 0, arccos at 1,
+                    # ...): "wherever that derivative exists" does not cover this run
+                    info["nondiff"] = True
                 if pi in cot:
                     cot[pi] = cot[pi] + c
                 else:
